@@ -182,6 +182,7 @@ func Run(outDir string, seed int64, tier string) error {
 			}
 			part("daemon", true, func() error { return w.daemonPart(tmp) })
 			part("handlers", true, func() error { return w.handlerPart(4) })
+			part("keystore-faults", true, func() error { return w.faultPart(tmp) })
 			part("dkg", false, func() error { return w.dkgPart(tmp, tier == "thorough" || id == crypto.DefaultSchemeID) })
 			pw.Wait()
 			w.cap.add("log/debug", w.sink.Bytes())
